@@ -6,7 +6,7 @@ NOT_APPLICABLE = {
     "C16": "The token-tiling invariant is a pure function of the input string observed on a deterministic token stream; no state, schedule or fault is involved.",
 }
 PENDING = {p: "not claimed yet: the simulated scenario for this property is designed (DESIGN.md section 5) but its check is still being built" for p in
-           ["C08", "C13", "C19", "C20"]}
+           ["C08", "C19", "C20"]}
 
 TEXT = {
     "C04": {
@@ -74,5 +74,11 @@ TEXT = {
         "design_ref": "DESIGN.md section 5 C12",
         "level_text": "Seeded exploration of project trees x output declarations (literal, named via string/join variables, globs, degenerate values '', '.', '..', the project directory, 'spokfile') x with/without a clean task x with/without an earlier run x root/nested cwd x optional EACCES on the removal of one designated path; a full snapshot of $HOME before and after must differ exactly by the designated set and the cache directory on success, by a subset of it on failure; any attempt to remove the spokfile, its directory, an ancestor or a path outside the sandbox is vetoed before it happens and reported. Sampling, not enumeration.",
         "level_note": "Trusted: every removal goes through the simhook.Remove seam; snapshot comparison (path, mode, content); the reference glob matcher.",
+    },
+    "C13": {
+        "technique": "deterministic simulation: the ambient process environment and .env are part of the seeded world (collisions injected), direct-substitution model as oracle",
+        "design_ref": "DESIGN.md section 5 C13",
+        "level_text": "Seeded exploration: 0-5 variables whose names collide with names set in the simulated ambient environment and/or the project's .env (the simulator owns the whole process environment of every invocation), values over printable ASCII incl. spaces, $, {, }, {{, #; kinds string, join, exec with surrounding whitespace, failing exec; commands mixing literals with {{.NAME}} references, `echo \"$NAME\"` for every variable and a variable-free line, run through the real CLI with --json (or listed with --vars). Oracle: cmd == textual substitution; the environment echo prints the model value whatever the ambient environment and .env hold; failing exec => error and nothing runs.",
+        "level_note": "Trusted: mvdan/sh's echo builtin prints its argument verbatim for the generated value alphabet; the model's join = filepath.Join of absolute arguments.",
     },
 }
